@@ -592,6 +592,17 @@ def input_tensor(name, shape, dtype, ctx=None):
         elem = lambda idx: c
     t = SymTensor(shape, dtype, elem, name=name, prov=("input", name))
     ctx.inputs[name] = (fn, tuple(shape), dtype)
+    if not hasattr(ctx, "input_fns"):
+        ctx.input_fns = []
+    ctx.input_fns.append((fn, tuple(shape), dtype))
+    if getattr(ctx, "inf_declared", False) and dtype == "f":
+        from .ops import INF
+
+        if rank == 0:
+            ctx.assume(z3.And(fn < INF, fn > -INF))
+        else:
+            vs = [z3.Int(f"infq{k}") for k in range(rank)]
+            ctx.assume(z3.ForAll(vs, z3.And(fn(*vs) < INF, fn(*vs) > -INF), patterns=[fn(*vs)]))
     return t
 
 
